@@ -56,7 +56,7 @@ ORACLES = {
         'lsp::position_to_offset': ['lsp::position_to_offset', 'lsp::round_trip'],
         'lsp::span_to_range': ['lsp::span_to_range'],
         'syntax::get_line_info': ['syntax::get_line_info'],
-        '*': ['lsp::offset_to_position', 'lsp::round_trip', 'lsp::position_to_offset', 'lsp::monotone', 'lsp::span_to_range', 'syntax::get_line_info', 'lsp::diagnostic_range', 'lsp::server_ranges'],
+        '*': ['lsp::offset_to_position', 'lsp::round_trip', 'lsp::position_to_offset', 'lsp::monotone', 'lsp::span_to_range', 'syntax::get_line_info', 'lsp::diagnostic_range', 'lsp::server_ranges', 'incan::fmt_error_location', 'lsp::published_ranges'],
     },
 }
 
